@@ -1,10 +1,11 @@
 PROP = dict(
     props="Props/C05.v",
-    tie={"modules": ["TieC05"],
+    tie={"modules": ["Election", "MomentumVerif", "TieC05"],
          "fns": {"election": ("election_run", "election_eqb", "election_in * election_out"),
                  "delegations": ("delegations_run", "delegations_eqb", "delegations_in * list deleg_t"),
                  "producer": ("producer_run", "producer_eqb", "producer_in * producer_out"),
-                 "apply": ("apply_run", "apply_eqb", "apply_in * apply_out")}},
+                 "apply": ("apply_run", "apply_eqb", "apply_in * apply_out"),
+                 "apply_only": ("apply_only_run", "Z.eqb", "apply_in * Z")}},
     suites=[{"bin": "c05", "name": "election", "n": {"quick": 400, "thorough": 6000}, "timeout": 600},
             {"bin": "c05", "name": "momentum", "n": {"quick": 12, "thorough": 150}, "timeout": 1200},
             {"bin": "c05", "name": "schedule", "n": {"quick": 5, "thorough": 60}, "timeout": 1200}],
